@@ -359,6 +359,9 @@ func newC12Env(p *Prog) *c12Env {
 			arg := "nil"
 			if _, isNil := args[0].(nilV); !isNil {
 				arg = fmtVal(args[0], none)
+				if pre, many, ok := m.sliceElems(st, args[0]); ok && !many && len(pre) == 0 {
+					arg = "nil" // an empty prefix (buf[:0]): the result is the digest alone, as with nil
+				}
 			}
 			e.sums = append(e.sums, tag+"|"+arg)
 			var out []byte
@@ -811,6 +814,32 @@ func c12Close(p *Prog, rp *Report) {
 			}
 			if len(e.sums) != 1 || !strings.HasSuffix(e.sums[0], "|nil") {
 				problems = append(problems, fmt.Sprintf("Close asks the hash for %v, want one Sum(nil)", e.sums))
+			}
+		}
+		// a recorded hash of another length than the digest never matches (digest 00ff10 against 00ff1000, 00ff and the empty string)
+		if len(problems) == 0 {
+			for _, recorded := range []string{"00ff1000", "00ff", "00ff100000000000", ""} {
+				e := newC12Env(p)
+				e.fixedDigest = true
+				e.digest = []byte{0x00, 0xff, 0x10}
+				id := e.st.alloc(fhT, mkStruct(fhT, map[string]Val{"Algorithm": "sha256", "Hash": recorded, "Size": int64(3), "Filename": "f"}))
+				ret, why := e.call(ver, Ptr{Obj: id})
+				tv, _ := ret.(*TupleV)
+				if why != "" {
+					problems = append(problems, why)
+					break
+				}
+				if tv == nil || !errIsNil(tv.E[1]) {
+					continue // refusing such an entry outright is fine
+				}
+				res, why := e.method(tv.E[0], nil, "Close")
+				if why != "" {
+					problems = append(problems, why)
+					break
+				}
+				if errIsNil(res) {
+					problems = append(problems, fmt.Sprintf("the recorded hash %q (another length than the digest 00ff10) is accepted for a stream whose digest is 00ff10", recorded))
+				}
 			}
 		}
 		// the recorded hash may be spelled in upper case
